@@ -16,7 +16,8 @@ from audiolazy import lazy_itertools as lit
 
 ID = "C03"
 inf = float("inf")
-HUGE = [2 ** 63 - 1, 2 ** 63, 2 ** 64 + 5, 10 ** 30, 1e19, 1e300, float(2 ** 63)]
+HUGE = [2 ** 63 - 1, 2 ** 63, 2 ** 64 + 5, 10 ** 30, 1e19, 1e300, float(2 ** 63),
+        10 ** 400, -10 ** 400]      # (integers no float holds)
 nan = float("nan")
 
 MAPS = {"inc": lambda v: v + 1, "dbl": lambda v: v * 2, "neg": lambda v: -v,
